@@ -255,7 +255,7 @@ class Func:
 
     def loc(self, node: Optional[ast.AST] = None) -> str:
         n = node if node is not None else self.node
-        return f"{self.module.relpath}:{getattr(n, 'lineno', 0)}"
+        return f"{self.module.relpath}:{getattr(n, '_orig_lineno', getattr(n, 'lineno', 0))}"
 
     def is_property(self) -> bool:
         for d in self.node.decorator_list:  # type: ignore[attr-defined]
